@@ -1096,7 +1096,8 @@ def parse_multipart_form_data(
     if final_boundary_index == -1:
         raise HTTPInputError("Invalid multipart/form-data: no final boundary found")
     parts = data[:final_boundary_index].split(b"--" + boundary + b"\r\n")
-    if len(parts) > config.max_parts:
+    # parts[0] is whatever precedes the first delimiter (normally empty), not a part.
+    if len(parts) - 1 > config.max_parts:
         raise HTTPInputError("multipart/form-data has too many parts")
     for part in parts:
         if not part:
